@@ -255,6 +255,13 @@ def scheduler_case(rng, rec, case):
             names[0], names[1] = base, rng.choice([base + ' ', ' ' + base])
         if rng.random() < 0.3:
             names[rng.randrange(ntasks)] = rng.choice(BAD_NAMES)
+        maybe = set(BAD_NAMES)
+        if rng.random() < 0.15 and ntasks >= 2:
+            # names longer than what the file system accepts, differing only
+            # in their tail: refused, or each in a directory of its own
+            stem = 'long' * 70
+            names[0], names[1] = stem + 'A', stem + 'B'
+            maybe.update(names[:2])
         scripted = {}
         graph = DepGraph()
         for i, name in enumerate(names):
@@ -276,8 +283,11 @@ def scheduler_case(rng, rec, case):
             entry = env.get(name, {})
             status = entry.get('status')
             cmds = scripted[name]
-            if name in BAD_NAMES:
+            if name in maybe:
                 rec.count('bad_names_tried')
+                if 'output_dir' in entry:
+                    dirs.setdefault(os.path.realpath(entry['output_dir']),
+                                    []).append(name)
                 if getattr(status, 'name', None) == 'DONE' or \
                         'output_dir' in entry:
                     outdir = os.path.realpath(entry.get('output_dir', ''))
